@@ -9,6 +9,8 @@ import (
 	"encoding/json"
 	"fmt"
 	"math/big"
+	"os"
+	"path/filepath"
 	"regexp"
 	"strings"
 	"testing"
@@ -38,6 +40,71 @@ type compiled struct {
 	di  *compiler.DebugInfo
 	m   *manifest.Manifest
 	err error
+	// set when the harness, not the compiler, failed
+	harnessErr error
+}
+
+// vmRoot is the root of the scratch module the multi-file programs are
+// compiled in (see newVMRoot); "" before TestCheck sets it up.
+var vmRoot string
+
+// newVMRoot makes dir the root of a module that resolves like the harness
+// module does: pkg/compiler loads a directory with the go command, and the go
+// command wants the directory inside a module. Under the driver GOFLAGS carries
+// -modfile, which replaces the content of this go.mod anyway; for manual runs
+// the harness' own go.mod / go.sum are copied with the replace aimed at the
+// repository under test.
+func newVMRoot(dir string) error {
+	if err := os.MkdirAll(dir, 0o755); err != nil {
+		return err
+	}
+	cwd, err := os.Getwd()
+	if err != nil {
+		return err
+	}
+	for d := cwd; ; d = filepath.Dir(d) {
+		b, err := os.ReadFile(filepath.Join(d, "go.mod"))
+		if err == nil {
+			mod := regexp.MustCompile(`(?m)^replace github.com/nspcc-dev/neo-go => .*$`).ReplaceAllString(string(b), "replace github.com/nspcc-dev/neo-go => "+repoDir())
+			if err := os.WriteFile(filepath.Join(dir, "go.mod"), []byte(mod), 0o644); err != nil {
+				return err
+			}
+			sum, _ := os.ReadFile(filepath.Join(d, "go.sum"))
+			rsum, _ := os.ReadFile(filepath.Join(repoDir(), "go.sum"))
+			return os.WriteFile(filepath.Join(dir, "go.sum"), append(append(sum, '\n'), rsum...), 0o644)
+		}
+		if d == filepath.Dir(d) {
+			return fmt.Errorf("no go.mod above %s", cwd)
+		}
+	}
+}
+
+// writeVMDir writes the package (and its sub-package) below vmRoot.
+func writeVMDir(p *program) (string, error) {
+	if vmRoot == "" {
+		return "", fmt.Errorf("harness: no module for directory compilation")
+	}
+	d := filepath.Join(vmRoot, p.pkg)
+	if err := os.MkdirAll(d, 0o755); err != nil {
+		return "", err
+	}
+	for _, f := range p.fileList() {
+		if err := os.WriteFile(filepath.Join(d, f.Name), []byte(f.Text), 0o644); err != nil {
+			return "", err
+		}
+	}
+	if p.aux != nil {
+		ad := filepath.Join(d, p.aux.name)
+		if err := os.MkdirAll(ad, 0o755); err != nil {
+			return "", err
+		}
+		for _, f := range p.aux.files {
+			if err := os.WriteFile(filepath.Join(ad, f.Name), []byte(f.Text), 0o644); err != nil {
+				return "", err
+			}
+		}
+	}
+	return d, nil
 }
 
 func compileProg(p *program) (c compiled) {
@@ -48,7 +115,19 @@ func compileProg(p *program) (c compiled) {
 	}()
 	config.Version = "neotest"
 	opts := &compiler.Options{Name: "c14-" + p.pkg, NoEventsCheck: true, NoPermissionsCheck: true}
-	c.nef, c.di, c.err = compiler.CompileWithOptions(p.pkg+".go", strings.NewReader(p.src), opts)
+	if p.dirCompile {
+		// a contract package: a directory of files, possibly with a package of its own
+		dir, err := writeVMDir(p)
+		if err != nil {
+			c.harnessErr = err
+			c.err = err
+			return
+		}
+		c.nef, c.di, c.err = compiler.CompileWithOptions(dir, nil, opts)
+	} else {
+		f := p.fileList()[0]
+		c.nef, c.di, c.err = compiler.CompileWithOptions(f.Name, strings.NewReader(f.Text), opts)
+	}
 	if c.err != nil {
 		return
 	}
@@ -170,13 +249,27 @@ type vmOutcome struct {
 
 // runBare enters the function through its manifest offset with `_initialize`
 // called first, as the VM does for a contract method.
-func runBare(c compiled, md *manifest.Method, args []argSpec, ret ty) (o vmOutcome) {
+//
+// pre "deploy" / "update": `_deploy(nil, false / true)` runs in between, the way
+// it would at deployment, but in this very VM so that the function sees the
+// package state `_deploy` left.
+func runBare(c compiled, md *manifest.Method, args []argSpec, ret ty, pre string) (o vmOutcome) {
 	v := vm.New()
 	v.LoadScriptWithFlags(c.nef.Script, callflag.All)
 	for i := len(args) - 1; i >= 0; i-- {
 		v.Estack().PushItem(argItem(args[i]))
 	}
 	v.Context().Jump(md.Offset)
+	if pre != "" {
+		dep := c.m.ABI.GetMethod(manifest.MethodDeploy, 2)
+		if dep == nil {
+			o.fault = "harness: _deploy is not in the manifest"
+			return
+		}
+		v.Estack().PushItem(stackitem.NewBool(pre == "update"))
+		v.Estack().PushItem(stackitem.Null{})
+		v.Call(dep.Offset)
+	}
 	if ini := c.m.ABI.GetMethod(manifest.MethodInit, 0); ini != nil {
 		v.Call(ini.Offset)
 	}
